@@ -281,30 +281,41 @@ func exprString(e ast.Node) string {
 }
 
 // visible locals at a loop: name -> type string
-// anchorStmt: first top-level statement of fd assigning variable name.
+// anchorStmt: the k-th (default first) top-level statement of fd that assigns variable name anywhere inside it.
+// name may be "v" or "v#k".
 func anchorStmt(fd *ast.FuncDecl, name string) ast.Stmt {
+	k := 1
+	if i := strings.Index(name, "#"); i >= 0 {
+		fmt.Sscan(name[i+1:], &k)
+		name = name[:i]
+	}
+	n := 0
 	for _, s := range fd.Body.List {
-		switch a := s.(type) {
-		case *ast.AssignStmt:
-			for _, l := range a.Lhs {
-				if id, ok := l.(*ast.Ident); ok && id.Name == name {
-					return s
-				}
-			}
-		case *ast.DeclStmt:
-			if gd, ok := a.Decl.(*ast.GenDecl); ok {
-				for _, sp := range gd.Specs {
-					if vs, ok := sp.(*ast.ValueSpec); ok {
-						for _, n := range vs.Names {
-							if n.Name == name {
-								return s
-							}
-						}
+		hit := false
+		ast.Inspect(s, func(x ast.Node) bool {
+			switch a := x.(type) {
+			case *ast.AssignStmt:
+				for _, l := range a.Lhs {
+					if id, ok := l.(*ast.Ident); ok && id.Name == name {
+						hit = true
 					}
 				}
+			case *ast.ValueSpec:
+				for _, id := range a.Names {
+					if id.Name == name {
+						hit = true
+					}
+				}
+			case *ast.IncDecStmt:
+				if id, ok := a.X.(*ast.Ident); ok && id.Name == name {
+					hit = true
+				}
 			}
-		case *ast.IncDecStmt:
-			if id, ok := a.X.(*ast.Ident); ok && id.Name == name {
+			return true
+		})
+		if hit {
+			n++
+			if n == k {
 				return s
 			}
 		}
@@ -566,6 +577,27 @@ func (w *World) recheck(pk *Pkg) error {
 				}
 			}
 			loops := loopsOf(fd)
+			var gs []string
+			for _, c := range d.Clauses {
+				if c.Kind == "ghost" {
+					gs = append(gs, c.SplitLo+" "+c.SplitHi)
+				}
+			}
+			anchored := func(c *Clause) (string, bool) {
+				as := anchorStmt(fd, c.SplitVar)
+				if as == nil {
+					w.Problems = append(w.Problems, fmt.Sprintf("%s:%d: %s has no top-level statement assigning %s", d.File, c.Line, d.Name, c.SplitVar))
+					c.FnName = ""
+					return "", false
+				}
+				ns, ts := w.localsAfter(pk, fd, as)
+				var lp []string
+				for i := range ns {
+					lp = append(lp, ns[i]+" "+ts[i])
+				}
+				lp = append(lp, gs...)
+				return strings.Join(lp, ", "), true
+			}
 			for _, c := range d.Clauses {
 				cn++
 				c.FnName = fmt.Sprintf("__c%d_%s", cn, strings.ReplaceAll(d.Name, ".", "_"))
@@ -573,7 +605,11 @@ func (w *World) recheck(pk *Pkg) error {
 				case "requires", "panics_iff":
 					fmt.Fprintf(&sb, "func %s(%s) bool { return %s }\n", c.FnName, strings.Join(ps, ", "), c.Text)
 				case "ensures":
-					fmt.Fprintf(&sb, "func %s(%s) bool { return %s }\n", c.FnName, strings.Join(append(append([]string{}, ps...), rs...), ", "), c.Text)
+					fmt.Fprintf(&sb, "func %s(%s) bool { return %s }\n", c.FnName, strings.Join(append(append(append([]string{}, ps...), gs...), rs...), ", "), c.Text)
+				case "ghost":
+					if lp, ok := anchored(c); ok {
+						fmt.Fprintf(&sb, "func %s(%s) %s { return %s }\n", c.FnName, lp, c.SplitHi, c.Text)
+					}
 				case "invariant", "decreases":
 					if c.Loop < 1 || c.Loop > len(loops) {
 						w.Problems = append(w.Problems, fmt.Sprintf("%s:%d: %s has no loop %d", d.File, c.Line, d.Name, c.Loop))
@@ -591,7 +627,7 @@ func (w *World) recheck(pk *Pkg) error {
 					}
 					fmt.Fprintf(&sb, "func %s(%s) %s { return %s }\n", c.FnName, strings.Join(lp, ", "), rt, c.Text)
 				case "split":
-					fmt.Fprintf(&sb, "func %s(%s) int { return %s }\n", c.FnName, strings.Join(ps, ", "), c.Text)
+					fmt.Fprintf(&sb, "func %s(%s) int { return %s }\n", c.FnName, strings.Join(append(append([]string{}, ps...), gs...), ", "), c.Text)
 				case "use":
 					i := strings.Index(c.Text, "(")
 					if i < 0 {
@@ -600,21 +636,19 @@ func (w *World) recheck(pk *Pkg) error {
 						continue
 					}
 					ln, la := strings.TrimSpace(c.Text[:i]), c.Text[i:]
-					fmt.Fprintf(&sb, "func %s(%s) bool { return %s__ens%s }\n", c.FnName, strings.Join(ps, ", "), ln, la)
-					fmt.Fprintf(&sb, "func %s_req(%s) bool { return %s__req%s }\n", c.FnName, strings.Join(ps, ", "), ln, la)
+					pl := strings.Join(ps, ", ")
+					if c.SplitVar != "" {
+						var ok bool
+						if pl, ok = anchored(c); !ok {
+							continue
+						}
+					}
+					fmt.Fprintf(&sb, "func %s(%s) bool { return %s__ens%s }\n", c.FnName, pl, ln, la)
+					fmt.Fprintf(&sb, "func %s_req(%s) bool { return %s__req%s }\n", c.FnName, pl, ln, la)
 				case "hint", "cut":
-					as := anchorStmt(fd, c.SplitVar)
-					if as == nil {
-						w.Problems = append(w.Problems, fmt.Sprintf("%s:%d: %s has no top-level assignment to %s", d.File, c.Line, d.Name, c.SplitVar))
-						c.FnName = ""
-						continue
+					if lp, ok := anchored(c); ok {
+						fmt.Fprintf(&sb, "func %s(%s) bool { return %s }\n", c.FnName, lp, c.Text)
 					}
-					ns, ts := w.localsAfter(pk, fd, as)
-					var lp []string
-					for i := range ns {
-						lp = append(lp, ns[i]+" "+ts[i])
-					}
-					fmt.Fprintf(&sb, "func %s(%s) bool { return %s }\n", c.FnName, strings.Join(lp, ", "), c.Text)
 				}
 			}
 		case "lemma":
@@ -624,6 +658,17 @@ func (w *World) recheck(pk *Pkg) error {
 				rt := "bool"
 				if c.Kind == "split" {
 					rt = "int"
+				}
+				if c.Kind == "use" {
+					i := strings.Index(c.Text, "(")
+					ln, la := strings.TrimSpace(c.Text[:i]), c.Text[i:]
+					fmt.Fprintf(&sb, "func %s(%s) bool { return %s__ens%s }\n", c.FnName, d.Params, ln, la)
+					fmt.Fprintf(&sb, "func %s_req(%s) bool { return %s__req%s }\n", c.FnName, d.Params, ln, la)
+					continue
+				}
+				if c.Kind == "reveal" {
+					c.FnName = ""
+					continue
 				}
 				fmt.Fprintf(&sb, "func %s(%s) %s { return %s }\n", c.FnName, d.Params, rt, c.Text)
 			}
